@@ -4,7 +4,7 @@ C10 - string variables keep their values through any memory history; FRE is cons
 E2 (history BFS on real Sessions).  A session is set up with a stored program (string
 literals of program lines live in program memory, those of direct statements in string
 space), two DEF FN string functions, the variables A$, B$, C$(0..2), X pre-created, and
-`CLEAR ,n` chosen so that exactly 24 / 40 / ~60000 bytes are free.  Every history over the
+`CLEAR ,n` chosen so that exactly 12 / 24 / 40 / ~60000 bytes are free.  Every history over the
 statement alphabet up to the depth is replayed on a fresh session, states are merged on
 the complete hidden state (pointers, string space map, temporaries mark).
 
@@ -32,7 +32,7 @@ LEVEL_TEXT = (
     'over an alphabet of up to 24 string statements (literal/concatenation/copy assignments in program '
     'and direct mode, MID$ and LSET/RSET statements, SWAP, array elements, ERASE/DIM, DEF FN calls, '
     'temporaries-only expressions, explicit collection, an over-long allocation), on real pcbasic '
-    'Sessions whose memory is limited so that 24, 40 or ~60000 bytes are free. States are merged '
+    'Sessions whose memory is limited so that 12, 24, 40 or ~60000 bytes are free. States are merged '
     'only when the complete hidden string-memory state is identical. In every state all values and '
     'three FRE readings are compared with a reference that does not use pcbasic.')
 LEVEL_NOTE = (
@@ -46,6 +46,8 @@ RULE = ('all histories over the statement alphabet up to the depth, per memory c
         'class is (statement, outcome, whether a collection was forced); non-trivial = every class '
         'except a successful literal assignment')
 ASSUMPTIONS = [
+    'sessions are created with video=\'cga\' (3x cheaper to build; variable memory does not depend '
+    'on the video adapter)',
     'internal seam (state key; where a live string is held - string space or program memory): '
     'Scalars._vars, Arrays._buffers/_dims/_base, StringSpace._strings/current/_temp, '
     'DataSegment.var_start/total_memory',
@@ -108,11 +110,11 @@ OPS = [
 ]
 LABELS = [o[0] for o in OPS]
 QUICK_OPS = [LABELS.index(l) for l in (
-    'lit5-code', 'lit9-code', 'append-code', 'midset', 'lset', 'copy', 'concat-elem', 'swap-elem',
+    'lit5-code', 'lit9-code', 'append-code', 'midset', 'lset', 'copy', 'concat-elem', 'swap', 'swap-elem',
     'elem-concat', 'erase', 'temps-only', 'fn-param-live', 'too-long')]
 
 # memory configurations: free bytes of the set-up session
-CONFIGS = {'f24': 24, 'f40': 40, 'big': None}
+CONFIGS = {'f12': 12, 'f24': 24, 'f40': 40, 'big': None}
 
 
 def _H():
@@ -267,12 +269,12 @@ def memory_size_for(free):
         return 65000
     if free not in _N_CACHE:
         H = _H()
-        s = H.new_session()
+        s = H.new_session(video='cga')
         _enter(s)
         _setup(s, 30000)
         f = s.evaluate(b'FRE("")')
         n = 30000 - (int(f) - free)
-        s2 = H.new_session()
+        s2 = H.new_session(video='cga')
         _enter(s2)
         _setup(s2, n)
         if s2.evaluate(b'FRE("")') != free:
@@ -283,7 +285,7 @@ def memory_size_for(free):
 
 def new_session(cfg):
     H = _H()
-    s = H.new_session()
+    s = H.new_session(video='cga')
     _enter(s)
     _setup(s, memory_size_for(CONFIGS[cfg]))
     return s
@@ -528,13 +530,14 @@ def work_bfs(shard):
 def legs(ctx):
     if ctx.quick:
         plan = [('f40', 4, 'quick'), ('f24', 3, 'quick'), ('big', 2, 'all')]
-        bound = ('13-statement alphabet: all histories <= 4 with 40 bytes free, <= 3 with 24 bytes '
+        bound = ('14-statement alphabet: all histories <= 4 with 40 bytes free, <= 3 with 24 bytes '
                  'free; full %d-statement alphabet: all histories <= 2 with ~60000 bytes free' % len(OPS))
     else:
-        plan = [('f40', 4, 'all'), ('f24', 4, 'all'), ('big', 3, 'all'), ('f40', 6, 'quick')]
+        plan = [('f40', 4, 'all'), ('f24', 4, 'all'), ('f12', 3, 'all'), ('big', 3, 'all'),
+                ('f40', 5, 'quick')]
         bound = ('full %d-statement alphabet: all histories <= 4 with 40 and with 24 bytes free, <= 3 '
-                 'with ~60000 bytes free; 13-statement alphabet: all histories <= 6 with 40 bytes free' %
-                 len(OPS))
+                 'with 12 and with ~60000 bytes free; 14-statement alphabet: all histories <= 5 with 40 '
+                 'bytes free' % len(OPS))
     return [Leg('bfs', plan, work_bfs, exhaustive=True, bound=bound, serial=True)]
 
 
